@@ -5,7 +5,9 @@ package fasthttp
 // keep-alive phases, and one Shutdown() at a random moment.  Hook events of ShutdownWithContext,
 // closeIdleConns, Serve and the serve loop (server.go, -tags verif), the clients' sends / closes
 // and the server-side Writes of the instrumented net.Conn form one mutex-ordered log per
-// execution, validated by TLC against specs/server/ShutdownTrace.tla.  Directed executions use
+// execution, validated by TLC against specs/server/ShutdownTrace.tla.  The Server object is reused:
+// an execution is 1-3 serve / shutdown cycles on one Server (Serve again on a new listener after
+// Shutdown returned nil), with handlers that run until ctx.Done() fires.  Directed executions use
 // blocking hooks as scheduler gates: (B) a connection turns active between closeIdleConns' idle
 // test and its Close; (C) closeIdleConns runs while a response is still buffered behind a
 // pipelined request.  Direct checks when Shutdown returns nil: Serve returned, listener closed,
@@ -59,7 +61,10 @@ func (c *c15Conn) Write(p []byte) (int, error) {
 	if err == nil {
 		ok = 1
 	}
-	c.rec.emit(vfRec{"ev": "conn.write", "c": c.id, "ok": ok}) // after the write: the bytes are on their way
+	c.rec.mu.Lock() // after the write: the bytes are on their way
+	c.rec.nev++
+	c.rec.tw.Emit(vfRec{"ev": "conn.write", "c": c.id, "ok": ok, "m": c.rec.markOf(c.id)})
+	c.rec.mu.Unlock()
 	return n, err
 }
 
@@ -85,6 +90,7 @@ type c15Rec struct {
 	tw        *vfTraceWriter
 	srv       *Server
 	gconn     map[uint64]int
+	ict       map[int]*atomic.Int64 // the connection's idleConnTime (s.idleConns[c]), fetched at registration
 	accepted  map[int]chan struct{}
 	started   map[[2]int]bool // (conn, client request index) whose handler started
 	hstartCh  chan [2]int     // handler starts, for the gates
@@ -104,6 +110,23 @@ func (r *c15Rec) emit(rec vfRec) {
 	r.nev++
 	r.tw.Emit(rec)
 	r.mu.Unlock()
+}
+
+// markOf classifies the real idleConnTime of connection id: 0 active, 1 idle (or not yet idle: a
+// time stamp), -1 claimed by closeIdleConns, 9 unknown.  Callers hold r.mu.
+func (r *c15Rec) markOf(id int) int {
+	ict := r.ict[id]
+	if ict == nil {
+		return 9
+	}
+	switch v := ict.Load(); {
+	case v == 0:
+		return 0
+	case v < 0:
+		return -1
+	default:
+		return 1
+	}
 }
 
 func c15ConnOf(x any) *c15Conn {
@@ -126,7 +149,11 @@ func (r *c15Rec) hook(ev string, o1, o2 any, a, b int) {
 		if ev == "srv.idle" && r.gate == "C" && a == 1 && r.gateFired.CompareAndSwap(false, true) {
 			// gate C: hold the loop right after it marked the connection idle while response 1 is
 			// still buffered behind the pipelined request 2
-			r.emit(vfRec{"ev": ev, "c": cc.id, "i": a})
+			r.mu.Lock()
+			r.nev++
+			r.idleSeen[cc.id] = a
+			r.tw.Emit(vfRec{"ev": ev, "c": cc.id, "i": a, "m": r.markOf(cc.id)})
+			r.mu.Unlock()
 			close(r.gateHit)
 			select {
 			case <-r.gateCh:
@@ -141,9 +168,10 @@ func (r *c15Rec) hook(ev string, o1, o2 any, a, b int) {
 		r.mu.Lock()
 		if ev == "srv.conn.reg" {
 			r.gconn[gid] = cc.id
+			r.ict[cc.id] = r.srv.idleConns[cc] // the hook runs under idleConnsMu
 		}
 		r.nev++
-		r.tw.Emit(vfRec{"ev": ev, "c": cc.id, "i": a})
+		r.tw.Emit(vfRec{"ev": ev, "c": cc.id, "i": a, "m": r.markOf(cc.id)})
 		if ev == "srv.idle" {
 			r.idleSeen[cc.id] = a
 		}
@@ -174,7 +202,7 @@ func (r *c15Rec) hook(ev string, o1, o2 any, a, b int) {
 		}
 		r.mu.Lock()
 		r.nev++
-		r.tw.Emit(vfRec{"ev": ev, "c": cc.id, "i": a})
+		r.tw.Emit(vfRec{"ev": ev, "c": cc.id, "i": a, "m": r.markOf(cc.id)})
 		r.mu.Unlock()
 	case "srv.serve.ret", "sd.stop", "sd.lnclosed", "sd.done", "sd.scan.begin", "sd.scan.end", "sd.return", "sd.wait":
 		if s, ok := o1.(*Server); !ok || s != r.srv {
@@ -182,9 +210,21 @@ func (r *c15Rec) hook(ev string, o1, o2 any, a, b int) {
 		}
 		r.mu.Lock()
 		r.nev++
-		r.tw.Emit(vfRec{"ev": ev})
 		if ev == "sd.done" {
+			// state of the real s.done right after Shutdown's close block (s.mu is held by Shutdown)
+			closed := 2
+			if ch := r.srv.done; ch != nil {
+				select {
+				case <-ch:
+					closed = 1
+				default:
+					closed = 0
+				}
+			}
+			r.tw.Emit(vfRec{"ev": ev, "closed": closed})
 			r.sdDone = true
+		} else {
+			r.tw.Emit(vfRec{"ev": ev})
 		}
 		if ev == "sd.scan.end" {
 			r.scanEnds++
@@ -238,6 +278,7 @@ type c15Cfg struct {
 	cos    bool   // CloseOnShutdown
 	nconns int
 	sdAt   int // microseconds before Shutdown is called
+	cycles int // serve / shutdown cycles on the one Server object (reuse); a gate applies to the last one
 }
 
 type c15Client struct {
@@ -250,15 +291,10 @@ type c15Client struct {
 }
 
 func c15RunOne(t *testing.T, rng *rand.Rand, tw *vfTraceWriter, trNo int, cfg c15Cfg) (int, int, string, string) {
-	rec := &c15Rec{tw: tw, gconn: map[uint64]int{}, accepted: map[int]chan struct{}{}, started: map[[2]int]bool{},
-		hstartCh: make(chan [2]int, 64), closedBy: map[int]bool{}, idleSeen: map[int]int{}, gateCh: make(chan struct{}), gateHit: make(chan struct{})}
-	if cfg.mode == "gateB" {
-		rec.gate = "B"
-	} else if cfg.mode == "gateC" {
-		rec.gate = "C"
-	}
+	rec := &c15Rec{tw: tw, hstartCh: make(chan [2]int, 64)}
+	rec.resetCycle()
 	var running atomic.Int32
-	var doneViol atomic.Int32
+	var doneViol, doneNever atomic.Int32
 	handler := func(ctx *RequestCtx) {
 		cc := c15ConnOf(ctx.Conn())
 		idx, _ := strconv.Atoi(string(ctx.Request.Header.Peek("X-Idx")))
@@ -273,13 +309,22 @@ func c15RunOne(t *testing.T, rng *rand.Rand, tw *vfTraceWriter, trNo int, cfg c1
 			}
 		}
 		d := time.Duration(ctx.QueryArgs().GetUintOrZero("d")) * time.Microsecond
-		if ctx.QueryArgs().GetUintOrZero("w") > 0 {
+		switch ctx.QueryArgs().GetUintOrZero("w") {
+		case 1:
 			select { // a handler that honours Done
 			case <-ctx.Done():
 			case <-time.After(d):
 			}
-		} else if d > 0 {
-			time.Sleep(d)
+		case 2:
+			select { // a handler that runs until the server shuts down (every execution calls Shutdown)
+			case <-ctx.Done():
+			case <-time.After(4 * time.Second):
+				doneNever.Add(1)
+			}
+		default:
+			if d > 0 {
+				time.Sleep(d)
+			}
 		}
 		ctx.Response.Header.Set("X-Idx", strconv.Itoa(idx))
 		ctx.SetBodyString("ok")
@@ -301,7 +346,57 @@ func c15RunOne(t *testing.T, rng *rand.Rand, tw *vfTraceWriter, trNo int, cfg c1
 	tw.Emit(vfRec{"ev": "init", "nc": 4, "maxreq": 8, "cos": map[bool]int{false: 0, true: 1}[cfg.cos], "tr": trNo, "mode": cfg.mode})
 	VerifHook = rec.hook
 	defer func() { VerifHook = nil }()
+	if cfg.cycles < 1 {
+		cfg.cycles = 1
+	}
+	totalReq := 0
+	for cyc := 1; cyc <= cfg.cycles; cyc++ {
+		mode := "random"
+		if cyc == cfg.cycles {
+			mode = cfg.mode
+		}
+		if cyc > 1 {
+			// the Server object is reused: Serve again on a new listener after Shutdown returned nil
+			rec.resetCycle()
+			rec.emit(vfRec{"ev": "serve.again", "cycle": cyc})
+		}
+		nreq, key, detail, stop := c15Cycle(rng, rec, s, cfg, mode, cyc, &running, &doneViol, &doneNever)
+		totalReq += nreq
+		if key != "" || stop {
+			VerifHook = nil
+			return rec.nev, totalReq, key, detail
+		}
+	}
+	VerifHook = nil
+	return rec.nev, totalReq, "", ""
+}
 
+// resetCycle clears the per-cycle bookkeeping (no goroutine of the previous cycle is left).
+func (r *c15Rec) resetCycle() {
+	r.mu.Lock()
+	r.gconn = map[uint64]int{}
+	r.ict = map[int]*atomic.Int64{}
+	r.accepted = map[int]chan struct{}{}
+	r.started = map[[2]int]bool{}
+	r.closedBy = map[int]bool{}
+	r.idleSeen = map[int]int{}
+	r.sdDone = false
+	r.scanEnds = 0
+	r.gate = ""
+	r.gateFired.Store(false)
+	r.gateCh = make(chan struct{})
+	r.gateHit = make(chan struct{})
+	r.mu.Unlock()
+}
+
+// c15Cycle runs one serve / clients / Shutdown cycle on s.  stop = true ends the execution (infrastructure
+// problem or a Shutdown error, which the property does not constrain).
+func c15Cycle(rng *rand.Rand, rec *c15Rec, s *Server, cfg c15Cfg, mode string, cyc int, running, doneViol, doneNever *atomic.Int32) (int, string, string, bool) {
+	if mode == "gateB" {
+		rec.gate = "B"
+	} else if mode == "gateC" {
+		rec.gate = "C"
+	}
 	ln := &c15Listener{ch: make(chan *c15Conn), closed: make(chan struct{})}
 	serveDone := make(chan error, 1)
 	go func() { serveDone <- s.Serve(ln) }()
@@ -315,7 +410,7 @@ func c15RunOne(t *testing.T, rng *rand.Rand, tw *vfTraceWriter, trNo int, cfg c1
 		}
 		if time.Now().After(dl) {
 			vfInfra("c15: Serve did not start")
-			return 0, 0, "", ""
+			return 0, "", "", true
 		}
 		time.Sleep(50 * time.Microsecond)
 	}
@@ -329,7 +424,7 @@ func c15RunOne(t *testing.T, rng *rand.Rand, tw *vfTraceWriter, trNo int, cfg c1
 	for id := 1; id <= cfg.nconns; id++ {
 		cl := &c15Client{id: id, received: map[int]bool{}}
 		clients[id] = cl
-		switch cfg.mode {
+		switch mode {
 		case "gateB":
 			cl.batches = []c15Batch{{k: 1, pause: 0}, {k: 1, waitOn: true, d: [2]int{30000, 0}}}
 		case "gateC":
@@ -391,8 +486,13 @@ func c15RunOne(t *testing.T, rng *rand.Rand, tw *vfTraceWriter, trNo int, cfg c1
 				for j := 0; j < bt.k; j++ {
 					cl.sent++
 					w := 0
-					if crng.Intn(3) == 0 {
-						w = 1
+					if mode == "random" {
+						switch crng.Intn(5) {
+						case 0:
+							w = 1
+						case 1:
+							w = 2
+						}
 					}
 					fmt.Fprintf(&sb, "GET /?d=%d&w=%d HTTP/1.1\r\nHost: x\r\nX-Idx: %d\r\n\r\n", bt.d[j], w, cl.sent)
 				}
@@ -430,7 +530,7 @@ func c15RunOne(t *testing.T, rng *rand.Rand, tw *vfTraceWriter, trNo int, cfg c1
 		sdErr <- err
 	}
 	runningAtReturn := int32(-1)
-	switch cfg.mode {
+	switch mode {
 	case "gateB":
 		// wait until the first request is answered and the connection idles, then shut down
 		c15WaitFor(func() bool { rec.mu.Lock(); defer rec.mu.Unlock(); return rec.idleSeen[1] >= 1 }, 3*time.Second)
@@ -465,7 +565,7 @@ func c15RunOne(t *testing.T, rng *rand.Rand, tw *vfTraceWriter, trNo int, cfg c1
 		runningAtReturn = running.Load()
 	case <-time.After(20 * time.Second):
 		vfInfra("c15: Shutdown did not return within 20s")
-		return rec.nev, 0, "", ""
+		return 0, "", "", true
 	}
 	serveReturned := false
 	select {
@@ -487,36 +587,37 @@ func c15RunOne(t *testing.T, rng *rand.Rand, tw *vfTraceWriter, trNo int, cfg c1
 	case <-time.After(12 * time.Second):
 		clientsDone = false
 	}
-	VerifHook = nil
 	nreq := 0
 	for id := 1; id <= cfg.nconns; id++ {
 		nreq += clients[id].sent
 	}
-	tag := fmt.Sprintf("mode=%s cos=%v", cfg.mode, cfg.cos)
+	tag := fmt.Sprintf("mode=%s cos=%v reuse=%v", mode, cfg.cos, cyc > 1)
 	if err != nil {
-		return rec.nev, nreq, "", "" // only a nil return is constrained by the property
+		return nreq, "", "", true // only a nil return is constrained by the property
 	}
 	// direct checks for Shutdown() == nil
 	switch {
 	case !serveReturned:
-		return rec.nev, nreq, "serve-not-returned " + tag, "Shutdown returned nil but Serve had not returned 2s later"
+		return nreq, "serve-not-returned " + tag, "Shutdown returned nil but Serve had not returned 2s later", false
 	case !lnClosed:
-		return rec.nev, nreq, "listener-open " + tag, "Shutdown returned nil but the listener was not closed"
+		return nreq, "listener-open " + tag, "Shutdown returned nil but the listener was not closed", false
 	case runningAtReturn != 0:
-		return rec.nev, nreq, "handler-running " + tag, fmt.Sprintf("%d request handler(s) still running when Shutdown returned nil", runningAtReturn)
+		return nreq, "handler-running " + tag, fmt.Sprintf("%d request handler(s) still running when Shutdown returned nil", runningAtReturn), false
+	case doneNever.Load() != 0:
+		return nreq, "done-never-fired " + tag, fmt.Sprintf("%d handler(s) waiting on ctx.Done() were still waiting 4s later although Shutdown had been called", doneNever.Load()), false
 	case doneViol.Load() != 0:
-		return rec.nev, nreq, "done-not-closed " + tag, fmt.Sprintf("%d handler(s) finished after shutdown had begun and found ctx.Done() open", doneViol.Load())
+		return nreq, "done-not-closed " + tag, fmt.Sprintf("%d handler(s) finished after shutdown had begun and found ctx.Done() open", doneViol.Load()), false
 	case !clientsDone:
-		return rec.nev, nreq, "idle-conn-not-closed " + tag, "a keep-alive connection was still open 12s after Shutdown returned nil"
-	case cfg.mode == "random" && sdDur > 6*time.Second:
-		return rec.nev, nreq, "waited-for-idle " + tag, fmt.Sprintf("Shutdown took %v with handlers of at most a few ms", sdDur)
+		return nreq, "idle-conn-not-closed " + tag, "a keep-alive connection was still open 12s after Shutdown returned nil", false
+	case mode == "random" && sdDur > 6*time.Second:
+		return nreq, "waited-for-idle " + tag, fmt.Sprintf("Shutdown took %v with handlers of at most a few ms", sdDur), false
 	}
 	rec.mu.Lock()
 	defer rec.mu.Unlock()
 	for id := 1; id <= cfg.nconns; id++ {
 		cl := clients[id]
 		if cl.err != "" {
-			return rec.nev, nreq, "client-error " + tag, fmt.Sprintf("conn %d: %s", id, cl.err)
+			return nreq, "client-error " + tag, fmt.Sprintf("conn %d: %s", id, cl.err), false
 		}
 		for i := 1; i <= cl.sent; i++ {
 			if rec.started[[2]int{id, i}] && !cl.received[i] {
@@ -528,12 +629,12 @@ func c15RunOne(t *testing.T, rng *rand.Rand, tw *vfTraceWriter, trNo int, cfg c1
 					}
 					n += bt.k
 				}
-				return rec.nev, nreq, fmt.Sprintf("lost-response %s pipelined=%v closedByShutdown=%v", tag, pip, rec.closedBy[id]),
-					fmt.Sprintf("conn %d request %d: its handler started before or during shutdown, Shutdown returned nil, but the client never received the response (batches %+v, received %v)", id, i, cl.batches, cl.received)
+				return nreq, fmt.Sprintf("lost-response %s pipelined=%v closedByShutdown=%v", tag, pip, rec.closedBy[id]),
+					fmt.Sprintf("conn %d request %d: its handler started before or during shutdown, Shutdown returned nil, but the client never received the response (batches %+v, received %v)", id, i, cl.batches, cl.received), false
 			}
 		}
 	}
-	return rec.nev, nreq, "", ""
+	return nreq, "", "", false
 }
 
 // c15RunServeConnOnly: a Server that is only used through ServeConn (Serve is never called, so it has
@@ -597,10 +698,10 @@ func TestVerifC15Shutdown(t *testing.T) {
 		tw := vfNewTrace(t, name)
 		var cfgs []c15Cfg
 		for i := 0; i < ngate; i++ {
-			cfgs = append(cfgs, c15Cfg{mode: "gateB", cos: cos, nconns: 1}, c15Cfg{mode: "gateC", cos: cos, nconns: 1})
+			cfgs = append(cfgs, c15Cfg{mode: "gateB", cos: cos, nconns: 1, cycles: 1 + i%2}, c15Cfg{mode: "gateC", cos: cos, nconns: 1, cycles: 2 - i%2})
 		}
 		for i := 0; i < ntr; i++ {
-			cfgs = append(cfgs, c15Cfg{mode: "random", cos: cos, nconns: 1 + rng.Intn(4), sdAt: rng.Intn(4000)})
+			cfgs = append(cfgs, c15Cfg{mode: "random", cos: cos, nconns: 1 + rng.Intn(4), sdAt: rng.Intn(4000), cycles: 1 + rng.Intn(3)})
 		}
 		for i, cfg := range cfgs {
 			n, nr, key, detail := c15RunOne(t, rng, tw, i+1, cfg)
